@@ -235,6 +235,9 @@ def main():
                                   'out_of_fuel_or_unmodelled': sum(1 for r in recs if r.get('big_kind') in ('fuel', 'unmodelled')),
                                   'max_height': max([r.get('big_height', 0) for r in recs] or [0]),
                                   'note': 'cases also evaluated by the verified executable big-step evaluator evalF (driver main2); every result witnesses a derivation of BigStep.Eval and must equal the implementation'},
+            'by_name_reference': {'programs_with_a_by_name_value': sum(1 for r in recs if r.get('bn') == 'value'),
+                                  'programs_with_a_function_value': sum(1 for r in recs if r.get('bn') == 'fn'),
+                                  'note': 'single-expression programs inside the fragment of the call-by-name reference semantics (ByName.BN); the value the executable reference evaluator bnEval assigns (proved to be a BN value, hence by adequacy the evaluator\'s value) must be what the implementation prints'},
             'status_counts': dict(stats), 'outcome_kinds': {f"{a}/{b}": n for (a, b), n in kinds.items()},
             'error_values_seen': dict(errs.most_common(12)), 'skipped_unmodelled': dict(skips.most_common(10)),
             'tags': dict(tags.most_common(30)), 'lean': lean_info, 'notes': notes,
